@@ -38,7 +38,10 @@ def make(prop, tier):
             if quick and k % 3 and not (rep in (S8, U8) and e in (-20, -3, 1)):
                 continue
             regs.append('c13::Chars<%s, %d, false>::reg("scaled|%s:%d")' % (sc(rep, e), prop, short(rep), e))
-    for rep, e, r in [(S32, -4, 10), (S32, 3, 10), (U16, -2, 10), (S16, -5, 3), (U8, 2, 3), (S32, -6, 8), (S64, 4, 8), (S8, -2, 10)]:
+    for rep, e, r in [(S32, -4, 10), (S32, 3, 10), (U16, -2, 10), (S16, -5, 3), (U8, 2, 3), (S32, -6, 8), (S64, 4, 8), (S8, -2, 10),
+                      # narrow reps whose widest values fill the static capacity, both signs of the exponent, every radix of the statement
+                      (S8, 2, 3), (S8, 1, 3), (S8, -2, 3), (S8, 4, 3), (U8, -3, 3), (S16, 3, 3), (S16, 1, 3), (S32, 5, 3), (S32, -7, 3),
+                      (S8, 1, 10), (S8, 2, 10), (U8, 1, 10), (S16, 2, 10), (S16, -3, 10), (S8, 1, 8), (S8, -1, 8), (U8, 2, 8), (S16, -3, 8)]:
         regs.append('c13::Chars<%s, %d, false>::reg("scaled_r%d|%s:%d")' % (sc(rep, e, r), prop, r, short(rep), e))
     for t, tl in [('cnl::elastic_scaled_integer<24, cnl::power<-10>>', 'esi24:-10'), ('cnl::scaled_integer<cnl::wide_integer<100>, cnl::power<-50>>', 'wide100:-50'),
                   ('cnl::static_number<30, -12>', 'static_number30:-12')]:
